@@ -8,6 +8,8 @@ Lemma pbind_ok {A B} (x : pres A) (f : A -> pres B) b :
   pbind x f = POk b -> exists a, x = POk a /\ f a = POk b.
 Proof. destruct x; cbn [pbind]; intros H; [eauto | discriminate | discriminate]. Qed.
 
+Ltac lit_list l := lazymatch l with | nil => idtac | cons _ ?r => lit_list r end.
+
 Ltac pb H a Ha := apply pbind_ok in H; destruct H as (a & Ha & H).
 
 Lemma of_option_ok {A} (o : option A) a : of_option o = POk a -> o = Some a.
@@ -89,14 +91,20 @@ Proof.
   intros H Hl. inversion H; subst. apply okl_nfirstn. exact Hl.
 Qed.
 
-Ltac okt :=
-  repeat first
-    [ assumption
-    | apply okl_app
-    | apply okl_nfirstn | apply okl_nskipn | apply okl_truncate | apply okl_drop_while | apply okl_rev
-    | solve [apply okl_ok; repeat constructor; unfold ok_byte; lia]
-    | match goal with |- _ (_ :: _) => constructor; [solve [apply P_ok; unfold ok_byte; lia] |] end
-    | match goal with |- _ (if ?b then _ else _) => destruct b end ].
+Ltac okt_step :=
+  match goal with
+  | |- _ => assumption
+  | |- _ (_ ++ _) => apply okl_app
+  | |- _ (nfirstn _ _) => apply okl_nfirstn
+  | |- _ (nskipn _ _) => apply okl_nskipn
+  | |- _ (truncate _ _) => apply okl_truncate
+  | |- _ (drop_while _ _) => apply okl_drop_while
+  | |- _ (rev _) => apply okl_rev
+  | |- _ (if ?b then _ else _) => destruct b
+  | |- _ ?l => lit_list l; solve [apply okl_ok; repeat constructor; unfold ok_byte; lia]
+  | |- _ (_ :: _) => constructor; [solve [apply P_ok; unfold ok_byte; lia] |]
+  end.
+Ltac okt := repeat okt_step.
 
 (* ---------- encoders ---------- *)
 Lemma push_encoded_okl set ser text : covers_ctl set -> okl ser -> okl (push_encoded set ser text).
@@ -301,15 +309,21 @@ Proof. apply okl_ok, decimal_ok. Qed.
 
 End Generic.
 
-Ltac okt P_ok :=
-  repeat first
-    [ assumption
-    | apply (okl_app _)
-    | apply okl_nfirstn | apply okl_nskipn | apply okl_truncate | apply okl_drop_while | apply okl_rev
-    | apply (decimal_okl _ P_ok)
-    | solve [apply (okl_ok _ P_ok); repeat constructor; unfold ok_byte; lia]
-    | match goal with |- _ (_ :: _) => constructor; [solve [apply P_ok; unfold ok_byte; lia] |] end
-    | match goal with |- _ (if ?b then _ else _) => destruct b end ].
+Ltac okt_step_g P_ok :=
+  match goal with
+  | |- _ => assumption
+  | |- _ (_ ++ _) => apply (okl_app _)
+  | |- _ (nfirstn _ _) => apply okl_nfirstn
+  | |- _ (nskipn _ _) => apply okl_nskipn
+  | |- _ (truncate _ _) => apply okl_truncate
+  | |- _ (drop_while _ _) => apply okl_drop_while
+  | |- _ (rev _) => apply okl_rev
+  | |- _ (decimal _) => apply (decimal_okl _ P_ok)
+  | |- _ (if ?b then _ else _) => destruct b
+  | |- _ ?l => lit_list l; solve [apply (okl_ok _ P_ok); repeat constructor; unfold ok_byte; lia]
+  | |- _ (_ :: _) => constructor; [solve [apply P_ok; unfold ok_byte; lia] |]
+  end.
+Ltac okt P_ok := repeat okt_step_g P_ok.
 
 (* ---------- hosts ---------- *)
 (* where a host value written by the parser can come from *)
